@@ -71,7 +71,8 @@ pub fn eval(c: &Case) -> (Vec<(String, String)>, String) {
     // inverse entry points map back onto the request
     let pose = to_na(&want);
     let th = fkref::internal_angles(p, &inner_q);
-    let regular = th[4].sin().abs() > 1e-3;
+    // non-emptiness is demanded only away from wrist, elbow, shoulder singularities and the reach boundary (oracle margins of C02)
+    let regular = th[4].sin().abs() > 1e-3 && crate::c02::expected_branches(p, &fkref::fk(p, &inner_q)).is_some();
     let axial_ok = st.wraps.iter().all(|w| match w {
         Wrap::Tool(t) | Wrap::Frame(t) => t.t[0] == 0.0 && t.t[1] == 0.0 && (t.r[2][2] - 1.0).abs() < 1e-15,
         _ => true,
@@ -82,7 +83,11 @@ pub fn eval(c: &Case) -> (Vec<(String, String)>, String) {
         if five && !axial_ok {
             continue;
         }
-        let sols = match call(k.as_ref(), entry, &pose, q, q[5]) {
+        for prev in [*q, rs_opw_kinematics::kinematic_traits::CONSTRAINT_CENTERED, [q[0] + 0.4, q[1] - 5.5, q[2] + 5.0, q[3], q[4], q[5] - 6.0]] {
+        if !entry.uses_prev() && prev[0].to_bits() != q[0].to_bits() {
+            continue;
+        }
+        let sols = match call(k.as_ref(), entry, &pose, &prev, q[5]) {
             Ok(s) => s,
             Err(m) => {
                 fails.push((format!("C16/panic/{}/{tag}", entry.name()), m));
@@ -100,10 +105,11 @@ pub fn eval(c: &Case) -> (Vec<(String, String)>, String) {
             if !(dp <= POS_TOL) || (!five && !(da <= ANG_TOL)) || (five && !(axis <= ANG_TOL)) {
                 fails.push((
                     format!("C16/round-trip/{}/{tag}", entry.name()),
-                    format!("answer {s:?} maps {dp:e} m / {da:e} rad away from the request"),
+                    format!("answer {s:?} maps {dp:e} m / {da:e} rad away from the request (previous {prev:?})"),
                 ));
                 break;
             }
+        }
         }
     }
     (fails, format!("{shape}:n{}", nsol.min(40)))
@@ -156,6 +162,9 @@ pub fn run(ctx: &Ctx) -> Report {
             8 => StackDesc::bare(*p).with(para).with(Wrap::Base(g)),
             _ => StackDesc::bare(*p).with(para).with(Wrap::Tool(g)),
         };
+        // every other case: limits that accept every angle (span > 2 pi) but whose centres lie beyond pi,
+        // so that CONSTRAINT_CENTERED makes the inner robot return angles outside [-pi, pi]
+        let desc = if idx % 2 == 1 { desc.limited(crate::common::stack::Limits { from: [0.5; 6], to: [7.5; 6], weight: 0.0 }) } else { desc };
         let case = Case { stack: desc, q };
         let (fails, sig) = eval(&case);
         r.states += 1;
